@@ -117,6 +117,17 @@ func (m *msi) getPendingRequestsToCore(id int) map[msiCommandRequest]*msiCommand
 	return requests
 }
 
+// hasCommand tells whether a snoop command for a line is still in progress
+// (its requester may have been flushed in the meantime).
+func (m *msi) hasCommand(alignedAddr comp.AlignedAddress) bool {
+	for req := range m.commands {
+		if req.alignedAddr == alignedAddr {
+			return true
+		}
+	}
+	return false
+}
+
 // rLock is a lock for read
 // Workflows:
 // Pre-actions: pendings
@@ -124,6 +135,9 @@ func (m *msi) getPendingRequestsToCore(id int) map[msiCommandRequest]*msiCommand
 // Post-action: msiCommandInfo callback
 func (m *msi) rLock(id int, addrs []int32) (msiResponse, func(), *comp.Sem) {
 	alignedAddr := getAlignedMemoryAddress(addrs)
+	if m.hasCommand(alignedAddr) {
+		return msiResponse{wait: true}, noop, nil
+	}
 	state := m.getState(id, addrs)
 	switch state {
 	case invalid:
@@ -182,6 +196,9 @@ func (m *msi) readRequest(id int, alignedAddr comp.AlignedAddress) []*msiCommand
 // Post-action: msiCommandInfo callback
 func (m *msi) lock(id int, addrs []int32) (msiResponse, func(), *comp.Sem) {
 	alignedAddr := getAlignedMemoryAddress(addrs)
+	if m.hasCommand(alignedAddr) {
+		return msiResponse{wait: true}, noop, nil
+	}
 	state := m.getState(id, addrs)
 	switch state {
 	case invalid:
